@@ -101,6 +101,14 @@ CHECKS = {
             "printed for all ordered pairs of 2|12 clusters of date-times (incl. spans beyond 2^31 s) under every subset (thorough: both orders, "
             "zero padding); year/month formats are checked for months < 12 and one sign",
             "totals as <<day diff, second diff>>; seconds-only formats for spans below 2^31 s; conservation of Y/m parts is C05", "5 C06"),
+    "C20": ("model_checking", "TLA+ Locale (parse tables follow setilocale, print tables setflocale, over all setter sequences; cross-wired setters refuted) model-checked; setter sequences and locale-pair tool runs validated by LocaleTrace; self-composition over an environment/clock grid validated by EnvTrace; import audit",
+            "Locale.tla is model-checked over every setter sequence; the real setilocale/setflocale are driven through seeded|all sequences of length <= 4 "
+            "with all eight tables read back, and dconv/dadd/dround/dseq run on (6|all prefix-free) x (16|all) shipped locale pairs, with one or both options in "
+            "both orders (LocaleTrace.tla); every invocation of a corpus (generated fully specified ones for all nine tools, underspecified ones with "
+            "--base, the qualifying .ctst command lines) runs under 12|17 combinations of TZ, LANG, LC_ALL, LC_TIME and injected wall clocks and "
+            "EnvTrace.tla accepts only if all runs agree in output and status; the binaries are audited to import no libc clock/locale conversions",
+            "environment values are an enumerated grid, not all strings; only C/POSIX libc locales are installed, so the LANG/LC_* dimension rests on the "
+            "import audit; the clock is injected by LD_PRELOAD", "5 C20"),
 }
 NOT_APPLICABLE = []
 
